@@ -81,6 +81,10 @@ type HistIn struct {
 	// Relist: the history may contain watch outages (steps of kind "outage", relist.go; model
 	// coq/theories/C01_Relist.v): the fake API server gets a switch in front of the resource kind
 	Relist bool `json:"relist,omitempty"`
+	// Rv > 0: every object write carries a resourceVersion, the cluster-wide counter Rv, Rv+1, ... as decimal text (an API
+	// server's versions grow and gain digits: 9 -> 10, 999 -> 1000); 0: the fake's objects carry none.  Versions are opaque
+	// to a client: the model does not look at them
+	Rv int `json:"rv,omitempty"`
 }
 
 // CompIn: the companion binding.  First: its monitor is created, started and unlocked before the
@@ -137,6 +141,19 @@ type histRun struct {
 	nonce             int
 	note              string
 	oc                *outageCtl // the switch that breaks the API server (histories with outages)
+	rvMu              sync.Mutex
+	rv                int // object writes so far (histories with resourceVersions)
+}
+
+// stamp gives an object about to be written the next resourceVersion.
+func (d *histRun) stamp(o *unstructured.Unstructured) *unstructured.Unstructured {
+	if d.in.Rv > 0 {
+		d.rvMu.Lock()
+		o.SetResourceVersion(strconv.Itoa(d.in.Rv + d.rv))
+		d.rv++
+		d.rvMu.Unlock()
+	}
+	return o
 }
 
 func (d *histRun) setNote(s string) {
@@ -323,7 +340,7 @@ func (d *histRun) syncObjWatchWithin(vm *kubeeventsmanager.VerifC01Monitor, n in
 	exists, nonce := false, 0
 	put := func() {
 		nonce++
-		o := hCM(HObj{n, 0, nonce % 40})
+		o := d.stamp(hCM(HObj{n, 0, nonce % 40}))
 		if exists {
 			dyn.Update(d.ctx, o, metav1.UpdateOptions{})
 		} else if _, err := dyn.Create(d.ctx, o, metav1.CreateOptions{}); err == nil {
@@ -458,13 +475,23 @@ func RunHist(in HistIn, ops []Op) HistObs {
 		}
 		d.inFake[n], d.fakeMatch[n] = false, false
 	}
+	lastRV := map[[2]int]string{}
 	putObj := func(ob HObj) {
 		var err error
 		k := [2]int{ob.Ns, ob.Name}
-		if _, ok := d.objs[k]; ok {
-			_, err = dync.Namespace(hNs(ob.Ns)).Update(bg, hCM(ob), metav1.UpdateOptions{})
+		if old, ok := d.objs[k]; ok {
+			o := hCM(ob)
+			if old == ob.Proj && d.in.Rv > 0 {
+				o.SetResourceVersion(lastRV[k]) // an update that changes nothing: the API server keeps the version
+			} else {
+				d.stamp(o)
+			}
+			lastRV[k] = o.GetResourceVersion()
+			_, err = dync.Namespace(hNs(ob.Ns)).Update(bg, o, metav1.UpdateOptions{})
 		} else {
-			_, err = dync.Namespace(hNs(ob.Ns)).Create(bg, hCM(ob), metav1.CreateOptions{})
+			o := d.stamp(hCM(ob))
+			lastRV[k] = o.GetResourceVersion()
+			_, err = dync.Namespace(hNs(ob.Ns)).Create(bg, o, metav1.CreateOptions{})
 		}
 		if err != nil {
 			d.setNote("object: " + err.Error())
@@ -698,7 +725,7 @@ func RenderHist(in HistIn, ops []Op, obs *HistObs, crash string) core.Case {
 			coqEvs(o.Out), o.Before, bad, coqEvs(o.COut), o.CBefore, bad)
 	}
 	c.JSON = map[string]any{"hist": o, "crash": crash}
-	c.Key = "hist" + fmt.Sprint(in.Names, in.Types, in.Filter, in.Initial, in.Nss, in.SelExpr, in.Relist, ops)
+	c.Key = "hist" + fmt.Sprint(in.Names, in.Types, in.Filter, in.Initial, in.Nss, in.SelExpr, in.Relist, in.Rv, ops)
 	if in.Comp != nil {
 		c.Key += fmt.Sprint(*in.Comp)
 	}
@@ -801,6 +828,9 @@ func RenderHist(in HistIn, ops []Op, obs *HistObs, crash string) core.Case {
 	}
 	c.Tags = []string{class, fmt.Sprintf("hist-ops:%02d", len(ops)/4*4), fmt.Sprintf("hist-types:%d", len(in.Types)),
 		fmt.Sprintf("hist-filter:%v", in.Filter), fmt.Sprintf("hist-namesel:%v", len(in.Names) > 0), fmt.Sprintf("hist-events:%02d", len(o.Out)/3*3)}
+	if in.Rv > 0 {
+		c.Tags = append(c.Tags, fmt.Sprintf("hist-resource-versions-from:%d", in.Rv))
+	}
 	if in.Comp != nil {
 		c.Tags = append(c.Tags, "hist-companion", fmt.Sprintf("hist-companion-first:%v", in.Comp.First),
 			fmt.Sprintf("hist-companion-same-debug-name:%v", in.Comp.SameDebug), fmt.Sprintf("hist-companion-events:%02d", len(o.COut)/3*3))
@@ -845,6 +875,9 @@ func genHist(r *core.Rng, nOps int, allowBrought bool, outages int) (HistIn, []O
 	in.Types = allTypes[r.Intn(len(allTypes)-1)] // never the empty list: most cases listen to everything
 	in.Filter = r.Chance(50)
 	in.SelExpr = r.Chance(25)
+	if outages == 0 && r.Chance(40) {
+		in.Rv = []int{1, 6, 8, 9, 93, 97, 99, 991, 997, 9996}[r.Intn(10)]
+	}
 	lab := map[int]bool{}
 	exists := map[int]bool{}
 	for n := 1; n <= 3; n++ {
@@ -1045,6 +1078,11 @@ func histCorpus() []core.In[Input] {
 	c := func(stream string, in HistIn, ops ...Op) {
 		h := in
 		ins = append(ins, core.In[Input]{Input: Input{Hist: &h, Ops: ops}, Stream: stream})
+	}
+	// resourceVersions that gain a digit while one object is modified again and again (8, 9, 10, 11; 98 .. 101; 998 .. 1001)
+	for _, rv := range []int{8, 98, 998} {
+		c("corpus", HistIn{Types: all, Nss: []HNsState{{1, true}}, Initial: []HObj{{1, 1, 1}}, Rv: rv}, set(1, 1, 2), set(1, 1, 3), set(1, 1, 4), set(1, 2, 1), set(1, 1, 5), del(1, 1))
+		c("corpus", HistIn{Types: []string{"Added", "Modified"}, Filter: true, Nss: []HNsState{{1, true}}, Rv: rv + 1}, set(1, 1, 2), set(1, 1, 3), set(1, 1, 4), set(1, 1, 13))
 	}
 	// a namespace of the start-up list is emptied and deleted, created again, objects appear and change in it
 	c("corpus", HistIn{Types: all, Nss: []HNsState{{1, true}}, Initial: []HObj{{1, 1, 1}}},
